@@ -73,7 +73,12 @@ def load_known(pid):
 
 def _eq(sec, a, b):
     if sec.equal:
-        return sec.equal(a, b)
+        try:
+            return bool(sec.equal(a, b))
+        except Exception:  # noqa
+            # a comparison written for well-formed observations met something else (the implementation raised where it never
+            # did, say): that is a disagreement for the oracle to judge, not a reason to stop the check
+            return False
     return C.canon(C.strip_msg(a)) == C.canon(C.strip_msg(b))
 
 
@@ -203,7 +208,12 @@ def run(pid, tier, seed, replay, t0):
             t_impl = time.time() - ts
             model_obs = [None] * len(cases)
             if sec.model_req:
-                reqs = [sec.model_req(c) for _, c in cases]
+                reqs = []
+                for _, c in cases:
+                    try:
+                        reqs.append(sec.model_req(c))
+                    except Exception as e:  # noqa: a request built from what the implementation left behind (recorded tapes …)
+                        reqs.append({"op": "batch", "reqs": [], "harness_note": f"model request could not be built: {type(e).__name__}: {e}"[:200]})
                 resps = C.run_model(reqs)
                 model_obs = [C.guarded(sec.model_obs, c, r) for (_, c), r in zip(cases, resps)]
             t_model = time.time() - ts - t_impl
@@ -218,12 +228,19 @@ def run(pid, tier, seed, replay, t0):
             for (src, c), io, mo in zip(cases, impl_obs, model_obs):
                 if _glue_obs(io) or _glue_obs(mo):
                     continue  # the harness could not observe this case: nothing to judge (reported once per section below)
+                # bookkeeping for the evidence file: written for well-formed observations, must never stop a check
                 if sec.describe:
-                    b = sec.describe(c, io)
+                    try:
+                        b = sec.describe(c, io)
+                    except Exception:  # noqa
+                        b = "undescribable-observation"
                     for bb in b if isinstance(b, (list, tuple)) else [b]:
                         hist[bb] = hist.get(bb, 0) + 1
                 if sec.nontrivial:
-                    k = sec.nontrivial(c, io)
+                    try:
+                        k = sec.nontrivial(c, io)
+                    except Exception:  # noqa
+                        k = None
                     if k is not None:
                         keys.add(C.jdump(k))
                 why = None
